@@ -69,6 +69,7 @@ func c10() {
 		if flags&2 != 0 {
 			cc.FlagNames = append(cc.FlagNames, "log")
 		}
+		cc.Env = vlib.RuntimeKnobsGC[(i/3)%len(vlib.RuntimeKnobsGC)]
 		variant := ""
 		if i%raceEvery == 1 {
 			variant = "race"
